@@ -455,6 +455,24 @@ fn monitor_create(kind: FactoryKind, r: &CreateReq, ok: bool, params: &Value, cr
             reasons.push("mint price below min_mint_price");
         }
     }
+    if kind == FactoryKind::OpenEdition && paid.map(|p| p != fee_amt).unwrap_or(false) {
+        reasons.push("open edition wants the creation fee exactly");
+    }
+    if matches!(kind, FactoryKind::Vending | FactoryKind::OpenEdition) && params["min_mint_price"]["denom"].as_str() != Some(r.mint_price.0.as_str()) {
+        reasons.push("mint price denom differs from min_mint_price");
+    }
+    // a request that respects every current parameter (and is well-formed in itself) must go through
+    let mut malformed = r.per_address_limit == 0 || r.num_tokens == Some(0) || paid == Some(0);
+    if kind == FactoryKind::OpenEdition && r.num_tokens.is_none() {
+        let airdrop_zero = x["airdrop_mint_price"]["amount"].as_str() == Some("0");
+        malformed = malformed || r.end_after_secs.is_none() || r.mint_price.1 == 0 || airdrop_zero;
+    }
+    if kind != FactoryKind::Base && kind != FactoryKind::OpenEdition && r.num_tokens.is_none() {
+        malformed = true;
+    }
+    if !ok && reasons.is_empty() && !malformed {
+        out.push((format!("{}:creation-refused-within-params", f), format!("creation {:?} was refused although it respects the current parameters {}", r, params)));
+    }
     if ok && !reasons.is_empty() {
         out.push((format!("{}:creation-ignores-params", f), format!("creation {:?} succeeded although {} (params {})", r, reasons.join(", "), params)));
     }
@@ -1017,7 +1035,7 @@ fn subset_hists(a: &Args, rng: &mut Rng, p: &Pools) -> Vec<Case> {
                 }
             }
         } else {
-            let per = if kind == FactoryKind::TokenMerge { 3 } else if xb == 0 { 1 } else { 2 };
+            let per = if kind == FactoryKind::TokenMerge { 12 } else if xb == 0 { 4 } else { 6 };
             for c in &cm {
                 for _ in 0..per {
                     let x = if xb == 0 { 0 } else { rng.below(1 << xb) as u32 };
@@ -1147,7 +1165,7 @@ fn creation_scripts() -> Vec<Case> {
 }
 
 fn random_hists(a: &Args, rng: &mut Rng, p: &Pools) -> Vec<Case> {
-    let per_kind = if a.thorough() { 400 } else { 30 };
+    let per_kind = if a.thorough() { 1500 } else { 120 };
     let mut out = vec![];
     for kind in FactoryKind::ALL {
         let codes = minter_codes(kind);
@@ -1232,7 +1250,7 @@ fn random_hists(a: &Args, rng: &mut Rng, p: &Pools) -> Vec<Case> {
 
 fn status_cases(a: &Args, rng: &mut Rng) -> Vec<Case> {
     let all: Vec<(bool, bool, bool)> = (0..8).map(|i| (i & 4 != 0, i & 2 != 0, i & 1 != 0)).collect();
-    let rounds = if a.thorough() { 12 } else { 2 };
+    let rounds = if a.thorough() { 12 } else { 3 };
     let mut out = vec![];
     for k in MinterKind::ALL {
         let mut flags = vec![];
